@@ -409,7 +409,7 @@ Definition SIG_DIALS := 5%N.            (* more than one backend connection for 
 Definition SIG_DNS_NO_EVENT := 6%N.     (* dns-proxy relayed a datagram that is not a DNS message without recording it / its payload (repaired: ca56d6d) *)
 Definition SIG_DNS_TCP := 7%N.          (* dns-proxy over a stream: a length-framed query or answer is not relayed whole (repaired: 4e8ef85) *)
 
-Definition SIG_DGRAM_CUT := 8%N.        (* a datagram longer than the server's 1024-byte peek, on a port shared with a detector service: only the peeked part is relayed *)
+Definition SIG_DGRAM_CUT := 8%N.        (* a datagram longer than the server's 1024-byte peek, on a port shared with a detector service: only the peeked part is relayed (repaired: 7028cca) *)
 
 Definition wrapped (k : conn_kind) : bool := match k with KTimeout _ => true | _ => false end.
 
